@@ -7,6 +7,7 @@ import (
 	"bufio"
 	"encoding/json"
 	"fmt"
+	"io"
 	"net"
 	"os"
 	"strings"
@@ -101,7 +102,7 @@ func TestVerifC10ClientReuse(t *testing.T) {
 	})
 	evals := 0
 	for _, v := range vecs {
-		for _, ver := range []string{"1.1", "1.0"} {
+		for _, ver := range []string{"1.1", "1.0", "1.1", "1.0"} {
 			evals++
 			ln := fasthttputil.NewInmemoryListener()
 			var mu sync.Mutex
@@ -136,7 +137,8 @@ func TestVerifC10ClientReuse(t *testing.T) {
 					}()
 				}
 			}()
-			hc := &HostClient{Addr: "x", Dial: func(string) (net.Conn, error) { return ln.Dial() }}
+			streamed := evals%2 == 0 // alternate: buffered bodies / streamed bodies closed by the caller
+			hc := &HostClient{Addr: "x", Dial: func(string) (net.Conn, error) { return ln.Dial() }, StreamResponseBody: streamed}
 			ok := true
 			for i := 0; i < 3; i++ {
 				req, resp := AcquireRequest(), AcquireResponse()
@@ -144,6 +146,14 @@ func TestVerifC10ClientReuse(t *testing.T) {
 				req.Header.SetMethod(MethodPost) // not retried silently
 				if err := hc.Do(req, resp); err != nil {
 					ok = false
+				}
+				if streamed {
+					// a proxy-like caller: strip the hop-by-hop field, read the body, close the stream
+					resp.Header.Del("Connection")
+					if bs := resp.BodyStream(); bs != nil {
+						io.Copy(io.Discard, bs) //nolint:errcheck
+					}
+					resp.CloseBodyStream() //nolint:errcheck
 				}
 				ReleaseRequest(req)
 				ReleaseResponse(resp)
@@ -159,11 +169,11 @@ func TestVerifC10ClientReuse(t *testing.T) {
 					reused = true
 				}
 			}
-			c := vfRec{"conn": v.Conn, "ver": ver, "requests_per_connection": pc}
+			c := vfRec{"conn": v.Conn, "ver": ver, "streamed": streamed, "requests_per_connection": pc}
 			// an HTTP/1.0 response without keep-alive is also final (RFC 9112 9.3)
 			mustNotReuse := v.Close || (ver == "1.0" && !strings.Contains(strings.ToLower(v.Conn), "keep-alive"))
 			if mustNotReuse && reused {
-				vfViol(fmt.Sprintf("C10:client-reuse:HTTP/%s Connection=%q", ver, v.Conn),
+				vfViol(fmt.Sprintf("C10:client-reuse:HTTP/%s Connection=%q streamed=%v", ver, v.Conn, streamed),
 					fmt.Sprintf("HostClient sent another request on a connection whose response said close: %v", pc), c)
 			}
 			if !ok {
